@@ -114,20 +114,45 @@ def detect(base, cur_inv, cur_txt):
     missing = [p for p in b_adts if p not in c_adts]
     new = [p for p in c_adts if p not in b_adts]
     paths = []          # (new full path, reference full path): an item that moved to a module whose name already exists
-    for m in missing:
-        def same_shape(n_):
-            if c_adts[n_] == b_adts[m] or _shape(c_adts[n_]) == _shape(b_adts[m]):
-                return True
-            sr_ = _seg_renames(m, n_)       # (a type that mentions itself, e.g. a linked node: compare after mapping the candidate's own name back)
-            return bool(sr_) and _sub(json.dumps(_shape(c_adts[n_])), sr_) == json.dumps(_shape(b_adts[m]))
-        cands = [n for n in new if same_shape(n)]
-        cands = [n for n in cands if _seg_renames(m, n) or n.rsplit('::', 1)[-1] == m.rsplit('::', 1)[-1]]
-        if len(cands) == 1:
+    done_m = set()
+    for _round in range(4):
+        n_before = len(paths) + len(ren)
+        for m in missing:
+            if m in done_m:
+                continue
+
+            def shp(n_):
+                # (types that moved together mention each other: compare after mapping back what has been matched so far)
+                if not (paths or ren):
+                    return _shape(c_adts[n_])
+                k_, vs_ = json.loads(_sub(_subpaths(json.dumps(_shape(c_adts[n_])), paths), list(ren.items())))
+                return (k_, vs_)
+
+            def same_shape(n_):
+                if c_adts[n_] == b_adts[m] or shp(n_) == _shape(b_adts[m]):
+                    return True
+                sr_ = _seg_renames(m, n_)       # (a type that mentions itself, e.g. a linked node: compare after mapping the candidate's own name back)
+                return bool(sr_) and _sub(json.dumps(shp(n_)), sr_) == json.dumps(_shape(b_adts[m]))
+            cands = [n for n in new if same_shape(n)]
+            cands = [n for n in cands if _seg_renames(m, n) or n.rsplit('::', 1)[-1] == m.rsplit('::', 1)[-1] or shp(n) == _shape(b_adts[m])]
+            same_name = [n for n in cands if n.rsplit('::', 1)[-1] == m.rsplit('::', 1)[-1]]
+            if same_name:
+                cands = same_name       # (several types of one shape moved: the one that kept its name is the one)
+            if len(cands) != 1:
+                continue
+            done_m.add(m)
             sr = _seg_renames(m, cands[0])
             if not (sr and accept(sr, 'type %s has the shape of %s' % (cands[0], m))):
                 if cands[0].rsplit('::', 1)[-1] == m.rsplit('::', 1)[-1]:
                     paths.append((cands[0], m))
                     log.append('%s moved to %s (same name, same shape; the full path is mapped back)' % (m, cands[0]))
+                elif shp(cands[0]) == _shape(b_adts[m]) and sum(1 for n_ in new if shp(n_) == _shape(b_adts[m])) == 1 and \
+                        sum(1 for m_ in missing if _shape(b_adts[m_]) == _shape(b_adts[m])) == 1 and (len(b_adts[m]['variants']) > 1 or len(b_adts[m]['variants'][0][1]) > 1):
+                    # moved AND renamed at once: the only type that went missing with this shape, the only new one that has it
+                    paths.append((cands[0], m))
+                    log.append('%s was renamed and moved to %s (the only new type with its shape; the full path is mapped back)' % (m, cands[0]))
+        if len(paths) + len(ren) == n_before:
+            break
     if paths:
         c_adts = {_subpaths(p_, paths): a_ for p_, a_ in c_adts.items()}
     # 2. fields / variants of ADTs present in both (after 1.)
@@ -144,8 +169,15 @@ def detect(base, cur_inv, cur_txt):
                 accept([(cv, bv)], 'variant of %s at the same position with the same payload' % op)
             if len(bf) != len(cf):
                 continue
+            def unwrapped(t_):
+                # a field whose type became a new single-field wrapper struct around its old type (seen through by the analysis)
+                w_ = cur_inv['adts'].get(t_)
+                if w_ and t_ not in b_adts and w_['kind'] == 'struct' and len(w_['variants']) == 1 and len(w_['variants'][0][1]) == 1:
+                    return w_['variants'][0][1][0][1]
+                return t_
             for (bn, bt), (cn, ct) in zip(bf, cf):
-                if bn != cn and _sub(ct, list(ren.items())) == bt and bn not in [x for x, _ in cf]:
+                ctn = _sub(_subpaths(ct, paths), list(ren.items()))
+                if bn != cn and (ctn == bt or _sub(_subpaths(unwrapped(ct), paths), list(ren.items())) == bt) and bn not in [x for x, _ in cf]:
                     if cn in vocab or not IDENT.fullmatch(cn) or not IDENT.fullmatch(bn):      # (tuple field <-> named field: `0` is not an identifier)
                         # the new name already means something elsewhere: rename this field only where it is used as a field of this type
                         structured.append((p, cn, bn))
